@@ -850,6 +850,11 @@ class Scanner:
         length = 0
         while '0' <= self.peek(length) <= '9':
             length += 1
+            if length > 9:
+                # Same limit as LibYAML (MAX_NUMBER_LENGTH); also keeps int() away
+                # from the interpreter's limit on the number of digits.
+                raise ScannerError("while scanning a directive", start_mark,
+                        "found extremely long version number", self.get_mark())
         value = int(self.prefix(length))
         self.forward(length)
         return value
